@@ -252,3 +252,17 @@ impl ObjMemberBuilder<ValueBuilder<'_>> {
 		Ok(())
 	}
 }
+
+#[cfg(jrsonnet_verif)]
+impl OopObject {
+	/// Verification hook: (name, `+:` flag, visibility) of this layer's own fields, sorted by name.
+	pub(super) fn verif_fields(&self) -> Vec<(IStr, bool, super::Visibility)> {
+		let mut out: Vec<_> = self
+			.this_entries
+			.iter()
+			.map(|(k, v)| (k.clone(), v.flags.add(), v.flags.visibility()))
+			.collect();
+		out.sort_by(|a, b| a.0.cmp(&b.0));
+		out
+	}
+}
